@@ -9,6 +9,9 @@
 (*   - every delivery attempt of the intruder world of DatTerms: an original response (built by the honest host *)
 (*     with cA, or signed by the intruder with cI / cE) for (u0, ch0), spliced to carry (c, intact, b, u),      *)
 (*     delivered to device d whose outstanding challenge is ch,                                                  *)
+(*   - what a challenge ANNOUNCES besides its vector (DatTerms): every protocol version x announcing device x    *)
+(*     content of the RoT hash field x the host's way of building the answer - crossed by the harness with the   *)
+(*     credential cases, so that the announced version differs from the credential's in every combination,        *)
 (* checks the lemmas below over both spaces, and prints every element as JSON for the harness, which builds the  *)
 (* real bytes with SPSDK, lets the device twin decide them, and hands the observations back to DatTrace.         *)
 EXTENDS DatTerms, DatLayout, Json
@@ -33,10 +36,13 @@ Longer(H) == {Append(h, s) : h \in H, s \in Steps}
 H2 == {h \in Longer(H1) : ValidHistory(h, FALSE)}
 H3 == {h \in Longer(H2) : ValidHistory(h, FALSE)}
 HistorySet == {[kind |-> "history", h |-> h] : h \in H2 \cup H3}
+\* what a challenge announces: any protocol version of the family of protocols, whatever the credential's is
+AnnounceSet == {[kind |-> "announce", ver |-> v, d |-> d, rkth |-> k, via |-> m] : v \in Versions, d \in Devices, k \in AnnRkth, m \in AnnVias}
 ASSUME MaxHistory = 3
 Init == \/ x \in {c \in CaseSet : ValidCaseOfSpace(c)}
         \/ x \in {a \in AttemptSet : ~a.binds => a.u = a.u0}          \* RSA: there is no uuid field to splice
         \/ x \in HistorySet
+        \/ x \in AnnounceSet
 Next == UNCHANGED x
 ASSUME B0 \in Beacons /\ {"d1", "d2"} \subseteq Devices
 \* ---- lemmas
@@ -58,6 +64,21 @@ HistoryBound == x.kind = "history" => \A bb \in BOOLEAN, w \in BOOLEAN, k \in 1.
    /\ \A t \in StepVerdicts(bb, w, x.h[k], Devices) : t.v = "Accept" => t.ch = x.h[k].ch /\ (bb => t.d = x.h[k].d)
    /\ (w \/ x.h[k].d = "d1") => [d |-> x.h[k].d, ch |-> x.h[k].ch, v |-> "Accept"] \in StepVerdicts(bb, w, x.h[k], Devices)
    /\ Cardinality(StepVerdicts(bb, w, x.h[k], Devices)) = Cardinality(Devices) * Cardinality(Chals)
+\* what the challenge announces about protocol version and RoT hash is no input of the response: for a credential of EITHER protocol kind
+\* (bb) the answer to announcement x is accepted by the announcing device under its challenge (credential scope permitting), by no device
+\* under another challenge and - ECC credential - by no other device
+AnnounceBound == x.kind = "announce" => \A bb \in BOOLEAN, w \in BOOLEAN :
+   /\ \A t \in AnnVerdicts(bb, w, x, Devices) : t.v = "Accept" => t.ch = "ch1" /\ (bb => t.d = x.d)
+   /\ (w \/ x.d = "d1") => [d |-> x.d, ch |-> "ch1", v |-> "Accept"] \in AnnVerdicts(bb, w, x, Devices)
+   /\ Cardinality(AnnVerdicts(bb, w, x, Devices)) = Cardinality(Devices) * Cardinality(Chals)
+\* ... and the FORM of the answer is the credential's: an answer in the form of the announced version - UUID embedded and signed exactly when
+\* the ANNOUNCED version is an ECC one - is, wherever the announced kind is not the credential's, accepted by no device under any challenge
+\* (the device reads the response along the credential it carries); and were a device to read it along its announcement instead, the
+\* RSA-form answer made with a wildcard ECC credential would open every other device that has the same challenge outstanding
+FormFollowsCredential == x.kind = "announce" =>
+   /\ \A bb \in BOOLEAN, w \in BOOLEAN :
+        BindsUuid(x.ver) # bb => \A d \in Devices, ch \in Chals : Verdict(AnnResp(BindsUuid(x.ver), x), d, ch, bb, w) # "Accept"
+   /\ ~BindsUuid(x.ver) => \A d \in Devices : Verdict(AnnResp(FALSE, x), d, "ch1", FALSE, TRUE) = "Accept"
 \* (the layout depends on class, version and number of keys only - not on the values of the keys: checked once per such triple and wildcard flag)
 Layout == x.kind = "case" /\ x.lz = "none" /\ x.given = "-" => LayoutLemma(x.cls, x.ver, x.nkeys) /\ (x.cls = "ele2" => Msg2Lemma(x.ver))
 \* ---- the slot dimension
